@@ -40,9 +40,9 @@ def partial_traces(choi, d):
     return np.einsum("ijkj->ik", t), np.einsum("jijk->ik", t)
 
 
-def experiment_for(n):
+def experiment_for(n, scale=1.0):
     def experiment(circuits, inputs):
-        return [tomo.outcome_frequencies(c, n, tuple(i.s)) for c, i in zip(circuits, inputs)]
+        return [tomo.outcome_frequencies(c, n, tuple(i.s), scale) for c, i in zip(circuits, inputs)]
     return experiment
 
 
@@ -69,7 +69,7 @@ def check_process(n, prog, methods, env, acc):
         c = {**case, "method": m}
         try:
             if m == "LI":
-                t = LIProcessTomography(n, base, experiment_for(n))
+                t = LIProcessTomography(n, base, experiment_for(n, (1.0, 1.0 / 9, 4096.0)[len(prog) % 3]))
                 choi = t.process()
                 err = float(np.abs(choi - choi_ref).max())
                 if err > 1e-8:
@@ -98,7 +98,7 @@ def check_process(n, prog, methods, env, acc):
                            ("Y..", rq.kron(*[rq.Y] * n)), ("haar", kernel.haar(d, env.seed + 70 + n)),
                            ("H..", rq.kron(*[rq.H] * n))]
                 for tl, tgt in targets:
-                    g = GateFidelity(n, base, experiment_for(n))
+                    g = GateFidelity(n, base, experiment_for(n, (1.0 / 16, 1.0, 1000.0)[len(prog) % 3]))
                     f = g.process(tgt)
                     want = (abs(np.trace(tgt.conj().T @ V)) ** 2 + d) / (d * (d + 1))
                     if abs(f - want) > 1e-8:
